@@ -1,6 +1,8 @@
 import datetime
 import ipaddress
 import os
+import re
+import typing
 import warnings
 from base64 import encodebytes
 from collections import ChainMap, Counter, deque
@@ -912,6 +914,15 @@ def on_pathlike(instance: Instance, ctx: Context) -> Optional[JSONSchema]:
 def on_enum(instance: Instance, ctx: Context) -> Optional[JSONSchema]:
     if issubclass(instance.origin_type, Enum):
         return JSONSchema(enum=[m.value for m in instance.origin_type])
+
+
+@register
+def on_pattern(instance: Instance, ctx: Context) -> Optional[JSONSchema]:
+    if instance.origin_type in (typing.Pattern, re.Pattern):
+        return JSONSchema(
+            type=JSONSchemaInstanceType.STRING,
+            format=JSONSchemaStringFormat.REGEX,
+        )
 
 
 __all__ = ["Instance", "get_schema"]
